@@ -6,7 +6,7 @@ import sys
 import time
 sys.path.insert(0, os.path.dirname(os.path.abspath(__file__)))
 
-WORDS = ['apple', 'Banana', 'cherry', 'delta', '42', '7up', '#hash', '_under', 'zeta', 'Echo', 'mango', 'kiwi fruit', 'a b']
+WORDS = ['apple', 'Apple', 'APPLE', 'Banana', 'cherry', 'delta', '42', '7up', '#hash', '_under', '_other', 'zeta', 'Echo', 'echo', 'mango', 'Mango', 'kiwi fruit', 'a b']
 ACCENTED = ['\u00e9clair', '\u00c5ngstr\u00f6m']
 
 
